@@ -23,7 +23,7 @@ RULE = ("one run = one generated proper table MDP (discounted or not, initial ma
 REAL = ["msdm.algorithms.lrtdp.LRTDP (unmodified)", "msdm.core.utils.dictutils.defaultdict2", "msdm.core.distributions sampling path", "QuickTabularMDP wrapper"]
 STUB = ["table MDP behind msdm's model interface", "random.Random stream (SimRandom)", "reference value iteration, exact policy evaluation, expected steps to absorption"]
 ASSUMPTIONS = ["the eps*N clauses are applied with every admissible heuristic; value monotonicity and the Bonet-Geffner trial bound only with monotone ones (their hypothesis)",
-               "proper MDPs with <= 6 non-absorbing states", "'reported values' = entries the result actually stores (V, Q, initial_value)"]
+               "proper MDPs with <= 6 non-absorbing states (4%: 10-20), tolerances relative to the value and to 1e-15 of the problem's value scale", "'reported values' = entries the result actually stores (V, Q, initial_value)"]
 from sim.models import SEAM_RANGES  # noqa: E402
 ASSUMPTIONS = ASSUMPTIONS + [SEAM_RANGES]
 
